@@ -9,7 +9,7 @@ across configurations.  With cache_const_intermediates the function is called tw
 
 import itertools, json
 import numpy
-from .. import core, terms as T, irspace, irtools, loopspace as LS
+from .. import core, terms as T, irspace, irtools, loopspace as LS, extraspace as XS
 
 LEVEL = 'exploration'
 RULE = ('programs = (1) every term of depth<=2 of the term space at the 4 principal configurations and every depth-1 term at all 16 serial '
@@ -40,6 +40,8 @@ def shards(tier, seed):
     nprog = len(LS.programs(tier))
     for lo in range(0, nprog, LOOP_CHUNK):
         out.append({'kind': 'loops', 'lo': lo, 'hi': min(nprog, lo + LOOP_CHUNK)})
+    for lo in range(0, len(XS.terms(tier)), 80):
+        out.append({'kind': 'extra', 'lo': lo, 'hi': lo + 80})
     for s in irspace.shards(TERM_PROFILES[tier], NPARTS[tier]):
         s['kind'] = 'terms'
         out.append(s)
@@ -106,6 +108,10 @@ def check_program(prog, configs, nsets=2, res=None):
         node = LS.build(prog)
     except Exception as e:
         return ('-', 'build', 'constructor raised {!r}'.format(e)[:300])
+    if not irtools.simplifies(node):
+        if res is not None:
+            res.count('skipped_simplifier_fails_see_C01')
+        return None
     envs_refs = []
     for env in T.valuations(LS.arguments(prog), nsets=nsets):
         try:
@@ -170,6 +176,12 @@ def run_shard(spec, tier, seed):
         for fam, prog in progs:
             _one(prog, ALL_CONFIGS, res, fam)
         res.sample({'loop_program': LS.show(progs[0][1]), 'family': progs[0][0], 'configs': len(ALL_CONFIGS)})
+    elif spec['kind'] == 'extra':
+        ts = XS.terms(tier)[spec['lo']:spec['hi']]
+        for fam, term in ts:
+            _one(term, SERIAL_CONFIGS, res, fam)
+        if ts:
+            res.sample({'structured_family_term': T.show(ts[0][1])})
     else:
         cfgs = SERIAL_CONFIGS if spec['level'] == 1 else PRINCIPAL
         last = None
